@@ -35,7 +35,7 @@ def outcome? (c : Char) : Option Outcome :=
   else none
 
 def op? (c : Char) : Option Op :=
-  if c = 'c' then some .call else if c = 'd' then some .die else none
+  if c = 'c' then some .call else if c = 'd' ∨ c = 'g' then some .die else none
 
 def b01 (b : Bool) : String := if b then "1" else "0"
 
@@ -125,18 +125,14 @@ def parseRes (t : String) : Option Res :=
       | none => (natAfter "closed" t).map .closed
 
 def runSess (isLazy : Bool) (env : List Ans) (n : Nat) : List String :=
-  let tail := fun (r : R) (env : List Ans) => [s!"made={r.made}", s!"left={env.length}"]
-  if isLazy then
-    match session (R.init true) env n with
-    | (rs, r, env') => rs.map resTok ++ tail r env'
-  else
-    match connectEager env with
-    | (r', env', .ready) =>
-      match session r' env' n with
-      | (rs, r, env'') => s!"build:ok:{stTok r'}" :: rs.map resTok ++ tail r env''
-    | (r', env', .failed e) => s!"build:fail{e}" :: tail r' env'
-    | (r', env', .pending) => "build:hang" :: tail r' env'
-    | (r', env', .panic) => "build:panic" :: tail r' env'
+  match channelSession isLazy env n with
+  | (b, rs, r, env') =>
+    (match b with
+     | .none => []
+     | .ok => [s!"build:ok:{stTok (connectEager env).1}"]
+     | .fail e => [s!"build:fail{e}"]
+     | .hang => ["build:hang"]
+     | .panic => ["build:panic"]) ++ rs.map resTok ++ [s!"made={r.made}", s!"left={env'.length}"]
 
 /-! e2e -/
 
@@ -211,18 +207,19 @@ def handle (case obs : List String) : String × String :=
     | some isLazy, some env, some n =>
       let model := String.intercalate " " (runSess isLazy env n)
       let body := obs.filter (!isMeta ·)
-      let (buildOk, rest) : Bool × List String := match body with
+      let (build, rest) : Option SessBuild × List String := match body with
         | b :: rest =>
           if (stripPre "build:" b).isSome then
-            (match natAfter "build:fail" b with
-              | some e => !isLazy && (Spec.Reconnect.failures env).contains e
-              | none => (stripPre "build:ok:" b).isSome && !isLazy, rest)
-          else (true, body)
-        | [] => (true, [])
-      let v := match parseAll parseRes rest with
-        | some rs => verdict (("build-definite", buildOk || leftOf obs == 0) ::
+            (if (stripPre "build:ok:" b).isSome then some .ok
+             else if b = "build:hang" then some .hang
+             else if b = "build:panic" then some .panic
+             else (natAfter "build:fail" b).map .fail, rest)
+          else (some .none, body)
+        | [] => (some .none, [])
+      let v := match build, parseAll parseRes rest with
+        | some b, some rs => verdict (Spec.Reconnect.sessBuildClauses isLazy env b (leftOf obs) ++
             Spec.Reconnect.sessClauses env rs (leftOf obs))
-        | none => "fail:unparsable-observation"
+        | _, _ => "fail:unparsable-observation"
       (model, v)
     | _, _, _ => bad
   | [kind, m, outsS, opsS] =>
